@@ -71,19 +71,20 @@ type cleanFailure struct {
 
 // wlRun is everything the enumeration needs from one executed workload.
 type wlRun struct {
-	Name      string
-	Sync      bool
-	NoCrash   bool // clean-close clause only (uses DeleteRecords)
-	Journal   []fsOp
-	Steps     []stepInfo
-	Topics    map[string][]*topicInc
-	Commits   map[string]map[tp][]commitEv // group -> partition -> commits in issue order
-	Groups    []string
-	Txids     []string
-	PIDs      map[int64]bool
-	CleanFail []cleanFailure
-	Restarts  int
-	Overwrite int
+	Name       string
+	Sync       bool
+	NoCrash    bool // clean-close clause only (uses DeleteRecords)
+	Incomplete bool // the script stopped early
+	Journal    []fsOp
+	Steps      []stepInfo
+	Topics     map[string][]*topicInc
+	Commits    map[string]map[tp][]commitEv // group -> partition -> commits in issue order
+	Groups     []string
+	Txids      []string
+	PIDs       map[int64]bool
+	CleanFail  []cleanFailure
+	Restarts   int
+	Overwrite  int
 	// counters
 	ProduceAcks, CommitAcks, Rolls int
 	RegsOnMissing                  int
@@ -576,6 +577,9 @@ type wlSpec struct {
 	MidRestart  bool // a clean restart in the middle
 	DeleteTopic bool
 	DelRecords  bool // clean-close clause only
+	// StaleTxn: a transaction writes to tD, tD is deleted and recreated while
+	// it stays open, then the cluster is restarted cleanly
+	StaleTxn bool
 }
 
 // runWorkload executes one workload on a fresh journaling filesystem.
@@ -665,9 +669,20 @@ func runWorkload(spec wlSpec, rng *rand.Rand) (run *wlRun, err error) {
 		return nil
 	}
 
+	delAt, recreateAt := spec.Ops/3, 2*spec.Ops/3
+	if spec.StaleTxn {
+		delAt, recreateAt = spec.Ops/5, 2*spec.Ops/5 // both before the middle restart
+		t3, err := x.newProducer(spec.Name + "-tx3")
+		if err != nil {
+			return run, err
+		}
+		if err := x.produce(t3, "tD", 0); err != nil {
+			return run, err
+		}
+	}
 	for i := 0; i < spec.Ops; i++ {
 		switch {
-		case spec.DeleteTopic && i == spec.Ops/3:
+		case spec.DeleteTopic && i == delAt:
 			if err := x.produce(nil, "tD", 0); err != nil {
 				return run, err
 			}
@@ -678,9 +693,14 @@ func runWorkload(spec wlSpec, rng *rand.Rand) (run *wlRun, err error) {
 			if err := x.cleanRestart(probes); err != nil {
 				return run, err
 			}
-		case spec.DeleteTopic && i == 2*spec.Ops/3:
+		case spec.DeleteTopic && i == recreateAt:
 			if err := x.createTopic("tD", 1, map[string]string{"segment.bytes": "260"}); err != nil {
 				return run, err
+			}
+			if spec.StaleTxn {
+				if err := x.produce(nil, "tD", 0); err != nil {
+					return run, err
+				}
 			}
 			if err := x.step("IncrementalAlterConfigs tB segment.bytes=250", func() error {
 				return x.n.alterTopicConfig(x.ctx, "tB", "segment.bytes", "250")
